@@ -486,6 +486,8 @@ impl Pr {
     pub fn same(self) -> Pr {
         self
     }
+    /// an associated constant of the field type itself whose type is ANOTHER type (converted through From<Src>)
+    pub const RAW4: Src = Src(4);
 }
 pub fn mk(n: u8) -> Pr {
     Pr(format!("call:{}", n))
